@@ -29,6 +29,7 @@ type evReader struct {
 	loaded bool
 	closed int
 	reads  int
+	cid    string
 }
 
 func (r *evReader) Read(p []byte) (int, error) {
